@@ -523,6 +523,14 @@ func (s *v4Server) updateStaticLease(l *dhcpsvc.Lease) (err error) {
 	s.leasesLock.Lock()
 	defer s.leasesLock.Unlock()
 
+	// Check everything that can fail before removing anything, so that a
+	// rejected lease doesn't change the existing ones.
+	err = s.checkNewStaticLease(l)
+	if err != nil {
+		// Don't wrap the error, because it's informative enough as is.
+		return err
+	}
+
 	err = s.rmDynamicLease(l)
 	if err != nil {
 		return fmt.Errorf("removing dynamic leases for %s (%s): %w", l.IP, l.HWAddr, err)
@@ -531,6 +539,41 @@ func (s *v4Server) updateStaticLease(l *dhcpsvc.Lease) (err error) {
 	err = s.addLease(l)
 	if err != nil {
 		return fmt.Errorf("adding static lease for %s (%s): %w", l.IP, l.HWAddr, err)
+	}
+
+	return nil
+}
+
+// checkNewStaticLease returns an error if the static lease l cannot be added
+// because of the subnet or because of the existing static leases.
+func (s *v4Server) checkNewStaticLease(l *dhcpsvc.Lease) (err error) {
+	if sn := s.conf.subnet; !sn.Contains(l.IP) {
+		return fmt.Errorf(
+			"adding static lease for %s (%s): subnet %s does not contain the ip %q",
+			l.IP,
+			l.HWAddr,
+			sn,
+			l.IP,
+		)
+	}
+
+	for _, sl := range s.leases {
+		if !sl.IsStatic {
+			continue
+		}
+
+		if bytes.Equal(sl.HWAddr, l.HWAddr) || sl.IP == l.IP {
+			return fmt.Errorf(
+				"removing dynamic leases for %s (%s): %w",
+				l.IP,
+				l.HWAddr,
+				errors.Error("static lease already exists"),
+			)
+		}
+
+		if l.Hostname != "" && sl.Hostname == l.Hostname {
+			return fmt.Errorf("adding static lease for %s (%s): %w", l.IP, l.HWAddr, ErrDupHostname)
+		}
 	}
 
 	return nil
